@@ -215,7 +215,21 @@ def run_hourly(case, res):
     ghe = ghe_factory.make_ghe(coords, pipe=cfg.get("pipe", "single"), H=cfg.get("H", 97.5), flow_per_bh=cfg.get("flow", 0.3), gfunc=gf,
                                months=cfg.get("months", 12), loads=loads)
     res["evals"] += 1
-    mx, mn = ghe.simulate(method=TimestepType.HOURLY)
+    if case.get("retarget"):
+        # the height is changed after construction (as the search and the sizing do); the result must be that of a GHE built at the
+        # new height - differential oracle, independent of any time scale the object may have kept
+        h1 = case["retarget"]
+        ghe.bhe.b.H = h1
+        mx, mn = ghe.simulate(method=TimestepType.HOURLY)
+        fresh = ghe_factory.make_ghe(coords, pipe=cfg.get("pipe", "single"), H=h1, flow_per_bh=cfg.get("flow", 0.3), months=cfg.get("months", 12), loads=loads,
+                                     gfunc=ghe_factory.table_gfunction(coords, 5.0 if len(coords) > 1 else 0.075, HEIGHTS, 0.075, curve=cfg.get("curve", "base")))
+        fresh.simulate(method=TimestepType.HOURLY)
+        if len(fresh.hp_eft) != len(ghe.hp_eft) or max(abs(float(a) - float(b)) for a, b in zip(fresh.hp_eft, ghe.hp_eft)) > 1e-9:
+            d = max(abs(float(a) - float(b)) for a, b in zip(fresh.hp_eft, ghe.hp_eft)) if len(fresh.hp_eft) == len(ghe.hp_eft) else float("inf")
+            res["violations"].append(core.viol("hourly_result_depends_on_construction_height", case, observed=d,
+                                               msg=f"hourly simulation at {h1} m on a GHE built at {cfg.get('H', 97.5)} m differs by up to {d} K from a GHE built at {h1} m"))
+    else:
+        mx, mn = ghe.simulate(method=TimestepType.HOURLY)
     n_hours = int(cfg.get("months", 12) / 12.0 * 8760.0)
     reps = -(-n_hours // 8760)
     q = [-x for x in (loads * reps)][:max(n_hours, len(loads))] if reps > 1 else [-x for x in loads]
@@ -304,6 +318,8 @@ def main(run: core.Run, only=None):
                  [(100, 1, 1.0e4), (101, 1, -1.0e4)], []]
     for k, b in enumerate(blocksets if not quick else blocksets[:4]):
         hourly.append({"family": "hourly", "cfg": {"N": (1, 4, 25)[k % 3], "pipe": ("single", "coaxial")[k % 2], "months": 12 if k % 2 == 0 else 24}, "blocks": [list(x) for x in b]})
+    hourly.append({"family": "hourly", "cfg": {"N": 4, "pipe": "single", "months": 12, "H": 97.5}, "blocks": [[10, 5, 4000.0], [6000, 48, -3000.0]], "retarget": 60.0})
+    hourly.append({"family": "hourly", "cfg": {"N": 4, "pipe": "coaxial", "months": 12, "H": 60.0}, "blocks": [[0, 24, -5000.0]], "retarget": 135.0})
     run.drive(hourly, family="hourly")
     return run.finish(
         rule="detailed: every load sequence of length 1..4 over 5 load levels x 3 step lengths on real GHE objects; hybrid: real simulate() "
